@@ -198,9 +198,9 @@ func finale() []Step {
 }
 
 func generate(w *lib.Writer, r *lib.Rand, tier string) {
-	n, lo, hi := 900, 30, 120
+	n, lo, hi := 720, 20, 80
 	if tier == "thorough" {
-		n, lo, hi = 24000, 30, 400
+		n, lo, hi = 12000, 30, 250
 	}
 	news := []string{"NewTable", "CreateTable", "lua"}
 	for i := 0; i < n; i++ {
